@@ -341,17 +341,41 @@ fn gen_leaf_batch(r: &mut Rng, k: usize, n: usize, u: &Universe) -> (Vec<Leaf>, 
 }
 
 // ------------------------------------------------------------------------------------------ private batch
+use wormhole_aggregator::private_batch::circuit::circuit_logic::PrivateBatchCircuitTargets;
+use wormhole_aggregator::public_batch::circuit::circuit_logic::PublicBatchCircuitTargets;
+
 struct PrivCtx {
     fl: FakeLeaf,
     cfg: CircuitConfig,
     template: Proof,
-    /// the circuit of size n, built once: verifier data + full data for explicit evaluation (1403)
+    /// the circuit of size n, built once: full data for explicit evaluation and as the verifier of really proved samples
     full: HashMap<usize, CircuitData<F, C, D>>,
-    targets: HashMap<usize, wormhole_aggregator::private_batch::circuit::circuit_logic::PrivateBatchCircuitTargets>,
+    targets: HashMap<usize, PrivateBatchCircuitTargets>,
+    /// committed-and-recycled provers (an accepted commit hands the prover back; a rejected one drops it)
+    pool: Mutex<HashMap<usize, Vec<PrivateBatchProver>>>,
+    builds: std::sync::atomic::AtomicUsize,
 }
 impl PrivCtx {
-    fn new_prover(&self, n: usize) -> PrivateBatchProver {
+    fn new(fl: FakeLeaf, cfg: CircuitConfig, template: Proof, sizes: &[usize]) -> Self {
+        let mut full = HashMap::new();
+        let mut targets = HashMap::new();
+        for &n in sizes {
+            let c = PrivateBatchCircuit::new(cfg.clone(), &fl.data.common, &fl.data.verifier_only, n).unwrap();
+            targets.insert(n, c.targets());
+            full.insert(n, c.build_circuit());
+        }
+        PrivCtx { fl, cfg, template, full, targets, pool: Mutex::new(HashMap::new()), builds: Default::default() }
+    }
+    fn take_prover(&self, n: usize) -> PrivateBatchProver {
+        if let Some(p) = self.pool.lock().unwrap().entry(n).or_default().pop() {
+            return p;
+        }
+        self.builds.fetch_add(1, std::sync::atomic::Ordering::Relaxed);
         PrivateBatchProver::new(self.cfg.clone(), self.fl.data.common.clone(), &self.fl.data.verifier_only, n, self.template.clone()).expect("prover over the fake leaf")
+    }
+    fn give_back(&self, n: usize, p: PrivateBatchProver) {
+        let p = p.verif_c15_recycle(self.targets[&n].clone());
+        self.pool.lock().unwrap().entry(n).or_default().push(p);
     }
 }
 
@@ -359,11 +383,11 @@ struct CommitObs {
     result: Result<(), String>,
     /// on Ok: does the committed witness satisfy every gate / copy constraint of the circuit?
     sat: Option<bool>,
-    /// on Ok and when asked: result class of the real prove() (+ verify): 1 ok, 0 failed
+    /// on Ok and when asked: did the real proving run succeed and the proof verify?
     proved: Option<bool>,
 }
 
-/// evaluate a committed (or hand-filled) partial witness on the circuit
+/// evaluate a committed (or hand-filled) partial witness on the circuit: witness generation (copy constraints) + all gates
 fn witness_sat(data: &CircuitData<F, C, D>, pw: PartialWitness<F>) -> bool {
     let ev = CircuitEval::new(data);
     match ev.generate_with_overrides(pw, &mut no_tweak()) {
@@ -373,27 +397,24 @@ fn witness_sat(data: &CircuitData<F, C, D>, pw: PartialWitness<F>) -> bool {
 }
 
 fn private_commit(ctx: &PrivCtx, n: usize, children: &[Child], really_prove: bool) -> CommitObs {
-    let prover = ctx.new_prover(n);
+    let prover = ctx.take_prover(n);
     let proofs: Vec<Proof> = children.iter().map(|c| c.proof.clone()).collect();
     match prover.commit(proofs) {
         Err(e) => CommitObs { result: Err(format!("{:#}", e)), sat: None, proved: None },
         Ok(committed) => {
             let pw = committed.verif_partial_witness().clone();
+            // the proving run of the committed prover's own circuit data on the committed witness (what prove() does),
+            // verified under the independently built verifier of the same size
             let proved = if really_prove {
-                let vd = ctx.full[&n].verifier_data();
-                let pw2 = pw.clone();
-                // the REAL prove() of the committed prover, then verification under the separately built verifier
-                let _ = pw2;
                 Some(match committed.verif_circuit_data().prove(pw.clone()) {
-                    Ok(p) => vd.verify(p).is_ok(),
+                    Ok(p) => ctx.full[&n].verify(p).is_ok(),
                     Err(_) => false,
                 })
             } else {
                 None
             };
-            let pcd = committed.circuit_data;
-            let data = CircuitData { prover_only: pcd.prover_only, common: pcd.common, verifier_only: ctx.full[&n].verifier_only.clone() };
-            let sat = witness_sat(&data, pw);
+            let sat = witness_sat(&ctx.full[&n], pw);
+            ctx.give_back(n, committed);
             CommitObs { result: Ok(()), sat: Some(sat), proved }
         }
     }
@@ -409,8 +430,9 @@ fn commit_segs(n: usize, extra: &[i128], template: &Proof, children: &[Child]) -
     s
 }
 
-/// fill the explicit order `leaves` into the size-n circuit and evaluate (no commit, no shuffle)
-fn explicit_sat(ctx: &PrivCtx, n: usize, proofs: &[Proof], r: &mut Rng) -> bool {
+/// fill the explicit order `proofs` into the size-n circuit and evaluate (no commit, no shuffle)
+fn explicit_sat(ctx: &PrivCtx, n: usize, proofs: &[Proof], seed: u64) -> bool {
+    let mut r = Rng::new(seed);
     let t = &ctx.targets[&n];
     let mut pw = PartialWitness::new();
     for (pt, p) in t.leaf_proofs.iter().zip(proofs) {
@@ -424,6 +446,782 @@ fn explicit_sat(ctx: &PrivCtx, n: usize, proofs: &[Proof], r: &mut Rng) -> bool 
     witness_sat(&ctx.full[&n], pw)
 }
 
+fn c14_private(out: &mut Out, rng: &mut Rng, thorough: bool, t0: std::time::Instant) {
+    let fl = FakeLeaf::new();
+    let u = universe(rng);
+    // a template that is a valid dummy in every inspected position but carries garbage elsewhere (fee, nullifier, block number)
+    let mut tpl = [0u64; 21];
+    tpl[3] = 10;
+    tpl[4] = 77;
+    tpl[20] = 5;
+    let template = fl.prove(tpl);
+    let sizes: Vec<usize> = if thorough { vec![1, 2, 3, 4] } else { vec![1, 2, 3] };
+    let ctx = PrivCtx::new(fl, no_zk(wormhole_private_batch_circuit_config()), template, &sizes);
+    out.note("c14-private", &format!("fake-leaf stack and circuits {:?} ready after {:?}", sizes, t0.elapsed()));
+
+    // ---- the F1 regression pair: two valid real leaves paying the same account 2^31 (resp. 2^30) each.
+    // Before the fix: commit Ok, prove() Err.  After: commit Err(sum class); the control still commits and proves.
+    let acc = u.accounts[1];
+    for (amt, tag) in [(1u64 << 31, "F1-two-leaves-2^31-same-account"), (1u64 << 30, "F1-control-two-leaves-2^30-same-account")] {
+        let a = valid(&ctx.fl, leaf(0, amt, 0, 10, [1, 0, 0, 0], acc, [0; 4], [9, 0, 0, 0], 3));
+        let b = valid(&ctx.fl, leaf(0, amt, 0, 10, [2, 0, 0, 0], acc, [0; 4], [9, 0, 0, 0], 3));
+        let ch = vec![a, b];
+        let segs = commit_segs(2, &[], &ctx.template, &ch);
+        // (i) the plain client path: a fresh prover, commit, then the REAL prove()
+        let real = PrivateBatchProver::new(ctx.cfg.clone(), ctx.fl.data.common.clone(), &ctx.fl.data.verifier_only, 2, ctx.template.clone())
+            .unwrap()
+            .commit(ch.iter().map(|c| c.proof.clone()).collect());
+        // (ii) a second commit of the same vector, whose committed witness is evaluated gate by gate
+        let o = private_commit(&ctx, 2, &ch, false);
+        match real {
+            Err(e) => {
+                let m = format!("{:#}", e);
+                out.note("F1", &format!("{}: commit Err class {}", tag, commit_kind(&m)));
+                out.case(1401, tag, &segs, &enc_commit(&Err(m)));
+            }
+            Ok(committed) => {
+                let pr = committed.prove();
+                let sat = o.sat.unwrap_or(false);
+                let shown = match &pr {
+                    Ok(_) => "Ok".to_string(),
+                    Err(e) => format!("Err({})", format!("{:#}", e).chars().take(140).collect::<String>()),
+                };
+                out.note("F1", &format!("{}: commit Ok; committed witness satisfies the circuit = {}; prove() = {}", tag, sat, shown));
+                out.case(1401, tag, &segs, &[1]);
+                out.case(1402, tag, &segs, &[(sat && pr.is_ok()) as i128]);
+            }
+        }
+    }
+
+    // ---- generated commit cases
+    struct Job {
+        n: usize,
+        ch: Vec<Child>,
+        tag: String,
+        prove: bool,
+    }
+    let mut jobs: Vec<Job> = vec![];
+    for &n in &sizes {
+        let reps = match (n, thorough) {
+            (1, false) => 8,
+            (2, false) => 26,
+            (_, false) => 5,
+            (1, true) => 120,
+            (2, true) => 400,
+            (3, true) => 160,
+            _ => 60,
+        };
+        for rep in 0..reps {
+            let k = match rng.below(24) {
+                0 => 0,
+                1 => n + 1,
+                _ => 1 + rng.below(n as u64) as usize,
+            };
+            let (ls, tag) = gen_leaf_batch(rng, k, n, &u);
+            let mut ch: Vec<Child> = ls.iter().map(|l| valid(&ctx.fl, *l)).collect();
+            let mut tag = tag.to_string();
+            if k > 0 {
+                let i = rng.below(k as u64) as usize;
+                match rng.below(14) {
+                    0 => {
+                        // flip a public input after proving
+                        let at = rng.below(21) as usize;
+                        ch[i] = tampered(&ctx.fl, ls[i], at, ls[i][at] ^ 1);
+                        tag += "+tampered";
+                    }
+                    1 => {
+                        ch[i] = wrong_len(&ctx.fl, ls[i], rng.chance(1, 2));
+                        tag += "+pi-len";
+                    }
+                    2 => {
+                        // the padding template itself supplied as a "real" proof
+                        ch[i] = Child { proof: ctx.template.clone(), verifies: true };
+                        tag += "+template-supplied";
+                    }
+                    3 if k < n => {
+                        // padding needed and a non-native asset
+                        let mut l = ls[i];
+                        l[0] = *rng.pick(&[1u64, (1 << 32) - 1, 1 << 32, P - 1]);
+                        ch[i] = valid(&ctx.fl, l);
+                        tag += "+nonzero-asset-with-padding";
+                    }
+                    _ => {}
+                }
+            }
+            jobs.push(Job { n, ch, tag, prove: rep % 10 == 0 });
+        }
+    }
+    // in chunks, so that provers handed back by accepted commits are reused by later cases (a rejected commit drops its prover)
+    let mut obs: Vec<CommitObs> = vec![];
+    for chunk in jobs.chunks(8) {
+        obs.extend(chunk.par_iter().map(|j| private_commit(&ctx, j.n, &j.ch, j.prove)).collect::<Vec<_>>());
+    }
+    // explicit evaluation of the padded batch (supplied order + one random order) whenever it is a vector of valid child
+    // proofs that fits: "rejected => indeed unprovable", "accepted => provable in any order"
+    struct Ex {
+        n: usize,
+        padded: Vec<Child>,
+        tag: String,
+        seed: u64,
+    }
+    let mut exs: Vec<Ex> = vec![];
+    for j in &jobs {
+        let k = j.ch.len();
+        if k >= 1 && k <= j.n && j.ch.iter().all(|c| c.verifies && c.proof.public_inputs.len() == 21) {
+            let mut padded: Vec<Child> = j.ch.clone();
+            while padded.len() < j.n {
+                padded.push(Child { proof: ctx.template.clone(), verifies: true });
+            }
+            for round in 0..2 {
+                if round == 1 {
+                    if j.n == 1 {
+                        break;
+                    }
+                    for i in (1..padded.len()).rev() {
+                        let q = rng.below(i as u64 + 1) as usize;
+                        padded.swap(i, q);
+                    }
+                }
+                exs.push(Ex { n: j.n, padded: padded.clone(), tag: format!("{}{}", j.tag, if round == 1 { "+shuffled" } else { "" }), seed: rng.next() });
+            }
+        }
+    }
+    let sats: Vec<bool> = exs.par_iter().map(|e| explicit_sat(&ctx, e.n, &e.padded.iter().map(|c| c.proof.clone()).collect::<Vec<_>>(), e.seed)).collect();
+
+    let mut n_ok = 0;
+    let mut n_proved = 0;
+    for (j, o) in jobs.iter().zip(&obs) {
+        let segs = commit_segs(j.n, &[], &ctx.template, &j.ch);
+        out.case(1401, &j.tag, &segs, &enc_commit(&o.result));
+        if let Some(sat) = o.sat {
+            n_ok += 1;
+            if o.proved.is_some() {
+                n_proved += 1;
+            }
+            out.case(1402, &j.tag, &segs, &[(sat && o.proved.unwrap_or(true)) as i128]);
+        }
+    }
+    for (e, s) in exs.iter().zip(&sats) {
+        let segs: Vec<Seg> = e.padded.iter().map(|c| c.seg()[1..].to_vec()).collect();
+        out.case(1403, &e.tag, &segs, &[*s as i128]);
+    }
+    out.note(
+        "c14-private",
+        &format!(
+            "{} commits ({} prover builds), {} accepted (committed witness evaluated on every gate), {} really proved+verified, {} explicit circuit evaluations; elapsed {:?}",
+            jobs.len(),
+            ctx.builds.load(std::sync::atomic::Ordering::Relaxed),
+            n_ok,
+            n_proved,
+            exs.len(),
+            t0.elapsed()
+        ),
+    );
+
+    // ---- bulk: the compatibility function alone (it reads public inputs only, so one proof shell with rewritten PIs will do)
+    let shell = ctx.fl.prove([0; 21]);
+    let bulk = if thorough { 30000 } else { 3000 };
+    for _ in 0..bulk {
+        let k = 1 + rng.below(5) as usize;
+        let n = if rng.chance(1, 2) { k } else { k + 1 };
+        let (ls, tag) = gen_leaf_batch(rng, k, n, &u);
+        let proofs: Vec<Proof> = ls
+            .iter()
+            .map(|l| {
+                let mut p = shell.clone();
+                for i in 0..21 {
+                    p.public_inputs[i] = F::from_canonical_u64(l[i]);
+                }
+                p
+            })
+            .collect();
+        let r = verif_ensure_leaf_batch_compatible(&proofs).map_err(|e| format!("{:#}", e));
+        let segs: Vec<Seg> = ls.iter().map(|l| seg_u64(l)).collect();
+        out.case(1404, tag, &segs, &enc_commit(&r));
+    }
+    out.note("c14-private", &format!("bulk compatibility cases {}; elapsed {:?}", bulk, t0.elapsed()));
+}
+
+// ------------------------------------------------------------------------------------------ public batch
+struct InnerStack {
+    fl: FakeLeaf,
+    cfg: CircuitConfig,
+    n_leaf: usize,
+    leaf_template: Proof,
+    data: CircuitData<F, C, D>,
+    targets: PrivateBatchCircuitTargets,
+}
+impl InnerStack {
+    fn new(n_leaf: usize) -> Self {
+        let fl = FakeLeaf::new();
+        let cfg = no_zk(wormhole_private_batch_circuit_config());
+        let leaf_template = fl.prove([0; 21]);
+        let c = PrivateBatchCircuit::new(cfg.clone(), &fl.data.common, &fl.data.verifier_only, n_leaf).unwrap();
+        let targets = c.targets();
+        let data = c.build_circuit();
+        InnerStack { fl, cfg, n_leaf, leaf_template, data, targets }
+    }
+    fn vd(&self) -> VerifierCircuitData<F, C, D> {
+        self.data.verifier_data()
+    }
+    fn pi_len(&self) -> usize {
+        21 * self.n_leaf + 8
+    }
+    /// a genuine private-batch proof through the REAL PrivateBatchProver (commit + prove)
+    fn real_inner(&self, leaves: &[Leaf]) -> Proof {
+        let proofs: Vec<Proof> = leaves.iter().map(|l| self.fl.prove(*l)).collect();
+        PrivateBatchProver::new(self.cfg.clone(), self.fl.data.common.clone(), &self.fl.data.verifier_only, self.n_leaf, self.leaf_template.clone())
+            .unwrap()
+            .commit(proofs)
+            .expect("inner commit")
+            .prove()
+            .expect("inner prove")
+    }
+    /// an all-dummy private-batch proof, built the way the circuit-build path builds the padding template
+    fn all_dummy_inner(&self, dummy_leaf: Leaf, r: &mut Rng) -> Proof {
+        let p = self.fl.prove(dummy_leaf);
+        let mut pw = PartialWitness::new();
+        for pt in &self.targets.leaf_proofs {
+            pw.set_proof_with_pis_target(pt, &p).unwrap();
+        }
+        for pre in &self.targets.dummy_nullifier_pre_images {
+            for l in 0..4 {
+                pw.set_target(pre[l], F::from_canonical_u64(r.next() % P)).unwrap();
+            }
+        }
+        self.data.prove(pw).expect("all-dummy inner")
+    }
+}
+fn tamper_proof(p: &Proof, at: usize, v: u64) -> Child {
+    let mut q = p.clone();
+    let verifies = q.public_inputs[at].to_canonical_u64() == v % P;
+    q.public_inputs[at] = F::from_noncanonical_u64(v);
+    Child { proof: q, verifies }
+}
+fn relen_proof(p: &Proof, longer: bool) -> Child {
+    let mut q = p.clone();
+    if longer {
+        q.public_inputs.push(F::ZERO);
+    } else {
+        q.public_inputs.pop();
+    }
+    Child { proof: q, verifies: false }
+}
+
+struct PubCtx {
+    inner: InnerStack,
+    template: Proof,
+    full: HashMap<usize, CircuitData<F, C, D>>,
+    targets: HashMap<usize, PublicBatchCircuitTargets>,
+    pool: Mutex<HashMap<usize, Vec<PublicBatchProver>>>,
+    builds: std::sync::atomic::AtomicUsize,
+}
+impl PubCtx {
+    fn take_prover(&self, m: usize) -> PublicBatchProver {
+        if let Some(p) = self.pool.lock().unwrap().entry(m).or_default().pop() {
+            return p;
+        }
+        self.builds.fetch_add(1, std::sync::atomic::Ordering::Relaxed);
+        let vd = self.inner.vd();
+        PublicBatchProver::new(wormhole_public_batch_circuit_config(), vd.common.clone(), &vd.verifier_only, m, self.inner.n_leaf, self.template.clone()).expect("public prover")
+    }
+}
+fn public_commit(ctx: &PubCtx, m: usize, children: &[Child], really_prove: bool) -> CommitObs {
+    let prover = ctx.take_prover(m);
+    let proofs: Vec<Proof> = children.iter().map(|c| c.proof.clone()).collect();
+    match prover.commit(PublicBatchInputs { proofs, aggregator_address: BytesDigest::default() }) {
+        Err(e) => CommitObs { result: Err(format!("{:#}", e)), sat: None, proved: None },
+        Ok(committed) => {
+            let pw = committed.verif_partial_witness().clone();
+            let proved = if really_prove {
+                Some(match committed.verif_circuit_data().prove(pw.clone()) {
+                    Ok(p) => ctx.full[&m].verify(p).is_ok(),
+                    Err(_) => false,
+                })
+            } else {
+                None
+            };
+            let sat = witness_sat(&ctx.full[&m], pw);
+            let p = committed.verif_c15_recycle(ctx.targets[&m].clone());
+            ctx.pool.lock().unwrap().entry(m).or_default().push(p);
+            CommitObs { result: Ok(()), sat: Some(sat), proved }
+        }
+    }
+}
+
+fn c14_public(out: &mut Out, rng: &mut Rng, thorough: bool, t0: std::time::Instant) {
+    let inner = InnerStack::new(1);
+    let bh1 = [9u64, 0, 0, 0];
+    let bh2 = [8u64, 1, 0, 0];
+    let acct = [5u64, 6, 7, 8];
+    let mk = |asset: u64, fee: u64, bh: [u64; 4], null: u64| leaf(asset, 100, 0, fee, [null, 0, 0, 0], acct, [0; 4], bh, 3);
+    // genuine inner proofs through the real private-batch prover (n = 1, so a non-native asset needs no padding)
+    let specs: Vec<(&str, Leaf)> = vec![("A", mk(0, 10, bh1, 1)), ("A2", mk(0, 10, bh1, 2)), ("B-other-block", mk(0, 10, bh2, 3)), ("C-other-asset", mk(7, 10, bh1, 4)), ("D-other-fee", mk(0, 11, bh1, 5))];
+    let reals: Vec<Proof> = specs.par_iter().map(|(_, l)| inner.real_inner(&[*l])).collect();
+    let template = inner.all_dummy_inner([0; 21], rng);
+    // an all-dummy inner proof whose (ignored) header carries another asset: exempt from every comparison
+    let mut dl = [0u64; 21];
+    dl[0] = 5;
+    dl[3] = 99;
+    let odd_dummy = inner.all_dummy_inner(dl, rng);
+    let sizes: Vec<usize> = if thorough { vec![1, 2, 3] } else { vec![2] };
+    let vd = inner.vd();
+    let mut full = HashMap::new();
+    let mut targets = HashMap::new();
+    for &m in &sizes {
+        let c = PublicBatchCircuit::new(wormhole_public_batch_circuit_config(), vd.common.clone(), &vd.verifier_only, m, inner.n_leaf).unwrap();
+        targets.insert(m, c.targets());
+        full.insert(m, c.build_circuit());
+    }
+    let pi_len = inner.pi_len();
+    let ctx = PubCtx { inner, template: template.clone(), full, targets, pool: Mutex::new(HashMap::new()), builds: Default::default() };
+    out.note("c14-public", &format!("inner proofs (real PrivateBatchProver over the fake leaf, n=1) and public circuits {:?} ready after {:?}", sizes, t0.elapsed()));
+
+    let ok = |p: &Proof| Child { proof: p.clone(), verifies: true };
+    let a = ok(&reals[0]);
+    let a2 = ok(&reals[1]);
+    let b = ok(&reals[2]);
+    let c = ok(&reals[3]);
+    let d = ok(&reals[4]);
+    let t = ok(&template);
+    let t2 = ok(&odd_dummy);
+    // the catalogue every vector is drawn from
+    let mut catalogue: Vec<(String, Child)> = vec![
+        ("A".into(), a.clone()),
+        ("A2".into(), a2.clone()),
+        ("B".into(), b.clone()),
+        ("C".into(), c.clone()),
+        ("D".into(), d.clone()),
+        ("T".into(), t.clone()),
+        ("T'".into(), t2.clone()),
+    ];
+    for (at, v) in [(1usize, 9u64), (2, 12), (3, 1), (6, 1), (8, 5), (9, 1), (18, 3), (28, 1)] {
+        catalogue.push((format!("A~{}", at), tamper_proof(&reals[0], at, v)));
+    }
+    catalogue.push(("T~3".into(), tamper_proof(&template, 3, 1)));
+    catalogue.push(("A-short".into(), relen_proof(&reals[0], false)));
+    catalogue.push(("A-long".into(), relen_proof(&reals[0], true)));
+
+    // ---- commits through the real PublicBatchProver
+    let mut vectors: Vec<(String, Vec<Child>)> = vec![
+        ("one-real".into(), vec![a.clone()]),
+        ("two-real".into(), vec![a.clone(), a2.clone()]),
+        ("blocks-differ".into(), vec![a.clone(), b.clone()]),
+        ("assets-differ".into(), vec![a.clone(), c.clone()]),
+        ("fees-differ".into(), vec![a.clone(), d.clone()]),
+        ("only-template".into(), vec![t.clone()]),
+        ("empty".into(), vec![]),
+        ("too-many".into(), vec![a.clone(), a2.clone(), a.clone()]),
+        ("tampered".into(), vec![tamper_proof(&reals[0], 1, 9)]),
+        ("pi-len".into(), vec![relen_proof(&reals[0], false)]),
+        ("odd-dummy-then-real".into(), vec![t2.clone(), a.clone()]),
+        ("real-then-template".into(), vec![a.clone(), t.clone()]),
+        ("incompatible-and-tampered".into(), vec![b.clone(), tamper_proof(&reals[3], 2, 1)]),
+        ("same-proof-twice".into(), vec![a.clone(), a.clone()]),
+    ];
+    let extra = if thorough { 60 } else { 4 };
+    for _ in 0..extra {
+        let k = rng.below(4) as usize;
+        let v: Vec<(String, Child)> = (0..k).map(|_| rng.pick(&catalogue).clone()).collect();
+        vectors.push((format!("random[{}]", v.iter().map(|x| x.0.as_str()).collect::<Vec<_>>().join(",")), v.into_iter().map(|x| x.1).collect()));
+    }
+    let mut jobs: Vec<(usize, String, Vec<Child>, bool)> = vec![];
+    for &m in &sizes {
+        for (i, (tag, v)) in vectors.iter().enumerate() {
+            jobs.push((m, tag.clone(), v.clone(), i < 2));
+        }
+    }
+    let mut obs: Vec<CommitObs> = vec![];
+    for chunk in jobs.chunks(6) {
+        obs.extend(chunk.par_iter().map(|(m, _, v, pr)| public_commit(&ctx, *m, v, *pr)).collect::<Vec<_>>());
+    }
+    let mut n_ok = 0;
+    for ((m, tag, v, _), o) in jobs.iter().zip(&obs) {
+        let segs = commit_segs(*m, &[pi_len as i128], &ctx.template, v);
+        out.case(1411, tag, &segs, &enc_commit(&o.result));
+        if let Some(sat) = o.sat {
+            n_ok += 1;
+            out.case(1412, tag, &segs, &[(sat && o.proved.unwrap_or(true)) as i128]);
+        }
+    }
+    out.note("c14-public", &format!("{} commits ({} prover builds), {} accepted; elapsed {:?}", jobs.len(), ctx.builds.load(std::sync::atomic::Ordering::Relaxed), n_ok, t0.elapsed()));
+
+    // ---- bulk: the preflight function itself (what ProvingContext::prove_batch runs before building the prover)
+    let vd = ctx.inner.vd();
+    let bulk = if thorough { 2500 } else { 260 };
+    let cases: Vec<(usize, String, Vec<Child>)> = (0..bulk)
+        .map(|_| {
+            let m = 1 + rng.below(3) as usize;
+            let k = match rng.below(8) {
+                0 => 0,
+                1 => m + 1,
+                _ => 1 + rng.below(m as u64) as usize,
+            };
+            let v: Vec<(String, Child)> = (0..k)
+                .map(|_| if rng.chance(3, 4) { catalogue[rng.below(7) as usize].clone() } else { rng.pick(&catalogue).clone() })
+                .collect();
+            (m, format!("k={}/m={}", k, m), v.into_iter().map(|x| x.1).collect())
+        })
+        .collect();
+    let res: Vec<Result<(), String>> = cases
+        .par_iter()
+        .map(|(m, _, v)| {
+            let proofs: Vec<Proof> = v.iter().map(|c| c.proof.clone()).collect();
+            verif_c21_preflight_private_batch_proofs(&proofs, *m, &vd).map_err(|e| format!("{:#}", e))
+        })
+        .collect();
+    for ((m, tag, v), r) in cases.iter().zip(&res) {
+        out.case(1414, tag, &commit_segs(*m, &[pi_len as i128], &ctx.template, v), &enc_commit(r));
+    }
+    out.note("c14-public", &format!("bulk preflight cases {}; elapsed {:?}", bulk, t0.elapsed()));
+}
+
+// ------------------------------------------------------------------------------------------ C16: templates
+// entry points (segment 0 of fids 1601 / 1602)
+const E_DIRECT: i128 = 1; // the validator function itself (cfg-gated forwarder)
+const E_PRIV_NEW: i128 = 2; // PrivateBatchProver::new
+const E_PRIV_BYTES: i128 = 3; // PrivateBatchProver::new_from_bytes        (canonical leaf)
+const E_PRIV_FILES: i128 = 4; // PrivateBatchProver::new_from_files        (canonical leaf)
+const E_PRIV_DIR: i128 = 5; // PrivateBatchProver::new_from_binaries_dir (canonical leaf)
+const E_BUILD: i128 = 6; // generate_private_batch_circuit_binaries(dir, n, true)
+const E_PUB_NEW: i128 = 7; // PublicBatchProver::new
+const E_PUB_BYTES: i128 = 8; // PublicBatchProver::new_from_bytes         (canonical stack)
+const E_PUB_FILES: i128 = 9; // PublicBatchProver::new_from_files
+const E_PUB_DIR: i128 = 10; // PublicBatchProver::new_from_binaries_dir
+const E_AGG: i128 = 11; // PublicBatchAggregator::with_limits / ::new
+
+fn template_segs(entry: i128, c: &Child) -> Vec<Seg> {
+    vec![vec![entry], c.seg()]
+}
+/// at an entry point only the class accept / reject-with-attribution is compared: the wrappers add context but keep the
+/// validator's message in the chain
+fn run_template_entry(out: &mut Out, fid: u32, entry: i128, tag: &str, c: &Child, r: Result<(), String>) {
+    out.case(fid, tag, &template_segs(entry, c), &enc_template(&r));
+}
+
+fn leaf_template_variants(fl: &FakeLeaf, rng: &mut Rng, thorough: bool) -> Vec<(String, Child)> {
+    let mut good = [0u64; 21];
+    good[3] = 10;
+    good[4] = 77;
+    good[20] = 5;
+    let mut v: Vec<(String, Child)> = vec![("good".into(), valid(fl, good)), ("all-zero".into(), valid(fl, [0; 21]))];
+    // every single position deviating, with a VALID proof of the deviating statement
+    for i in 0..21 {
+        let vals: Vec<u64> = if (1..=3).contains(&i) { vec![1, (1 << 32) - 1] } else { vec![1, P - 1, 1 << 32] };
+        for (q, val) in vals.iter().enumerate() {
+            if q > 0 && !thorough && !rng.chance(1, 3) {
+                continue;
+            }
+            let mut l = good;
+            l[i] = *val;
+            v.push((format!("valid-deviation@{}", i), valid(fl, l)));
+        }
+    }
+    // pairs
+    let pairs = if thorough { 120 } else { 24 };
+    for _ in 0..pairs {
+        let i = rng.below(21) as usize;
+        let j = rng.below(21) as usize;
+        let mut l = good;
+        l[i] = 1;
+        l[j] = if (1..=3).contains(&j) { 2 } else { *rng.pick(&[2u64, P - 1]) };
+        v.push((format!("valid-deviation@{}+{}", i.min(j), i.max(j)), valid(fl, l)));
+    }
+    // invalid proofs: tampered after proving, at inspected and uninspected positions; values outside what the fake leaf can prove
+    for i in 0..21 {
+        v.push((format!("tampered@{}", i), tampered(fl, good, i, good[i] ^ 1)));
+    }
+    for i in [0usize, 1, 2, 3, 20] {
+        v.push((format!("tampered-not-u32@{}", i), tampered(fl, good, i, 1 << 32)));
+    }
+    v.push(("short".into(), wrong_len(fl, good, false)));
+    v.push(("long".into(), wrong_len(fl, good, true)));
+    v
+}
+
+fn c16_leaf(out: &mut Out, rng: &mut Rng, thorough: bool, t0: std::time::Instant) {
+    let fl = FakeLeaf::new();
+    let vd = fl.vd();
+    let variants = leaf_template_variants(&fl, rng, thorough);
+    // (1) the validator itself
+    for (tag, c) in &variants {
+        let r = verif_verify_dummy_leaf_template(&c.proof, &vd).map_err(|e| format!("{:#}", e));
+        run_template_entry(out, 1601, E_DIRECT, tag, c, r);
+    }
+    // (2) the direct constructor: every single-position class + a sample of the rest
+    let cfg = no_zk(wormhole_private_batch_circuit_config());
+    let picked: Vec<&(String, Child)> = variants
+        .iter()
+        .enumerate()
+        .filter(|(i, (tag, _))| thorough || tag.starts_with("good") || tag.starts_with("all-zero") || tag.starts_with("short") || (tag.starts_with("valid-deviation@") && !tag.contains('+') && i % 2 == 0) || (tag.starts_with("tampered@") && i % 5 == 0) || (tag.contains('+') && i % 6 == 0))
+        .map(|(_, x)| x)
+        .collect();
+    let res: Vec<Result<(), String>> = picked
+        .par_iter()
+        .map(|(_, c)| PrivateBatchProver::new(cfg.clone(), fl.data.common.clone(), &fl.data.verifier_only, 1, c.proof.clone()).map(|_| ()).map_err(|e| format!("{:#}", e)))
+        .collect();
+    for ((tag, c), r) in picked.iter().zip(res) {
+        run_template_entry(out, 1601, E_PRIV_NEW, tag, c, r);
+    }
+    out.note("c16-leaf", &format!("{} templates at the validator, {} at PrivateBatchProver::new (fake leaf); elapsed {:?}", variants.len(), picked.len(), t0.elapsed()));
+}
+
+/// real leaf proofs against the CANONICAL leaf circuit
+fn canonical_leaf_templates(thorough: bool) -> Vec<(String, Child)> {
+    use test_helpers::TestInputs as _;
+    use wormhole_circuit::block_header::header::HeaderInputs;
+    use wormhole_circuit::inputs::CircuitInputs;
+    let prove = |i: &CircuitInputs| wormhole_prover::build_fresh().commit(i).and_then(|p| p.prove());
+    let mut v: Vec<(String, Child)> = vec![];
+    let dummy = prove(&wormhole_aggregator::build_dummy_circuit_inputs().unwrap()).expect("canonical dummy");
+    v.push(("canonical-dummy".into(), Child { proof: dummy.clone(), verifies: true }));
+    // valid dummy statements deviating in one inspected field
+    let marked = prove(&CircuitInputs::test_inputs_0()).expect("test_inputs_0");
+    v.push(("valid-dummy-with-exit-account".into(), Child { proof: marked, verifies: true }));
+    let mut i2 = wormhole_aggregator::build_dummy_circuit_inputs().unwrap();
+    i2.public.asset_id = 7;
+    if let Ok(p) = prove(&i2) {
+        v.push(("valid-dummy-with-asset-7".into(), Child { proof: p, verifies: true }));
+    }
+    // a real statement (non-zero block hash)
+    let mut real = CircuitInputs::test_inputs_0();
+    real.public.block_hash = HeaderInputs::try_from(&real).expect("header").block_hash();
+    if let Ok(p) = prove(&real) {
+        v.push(("valid-real-statement".into(), Child { proof: p, verifies: true }));
+    }
+    // uninspected field differs (fee): still a fine template
+    let mut i3 = wormhole_aggregator::build_dummy_circuit_inputs().unwrap();
+    i3.public.volume_fee_bps = 11;
+    if let Ok(p) = prove(&i3) {
+        v.push(("valid-dummy-other-fee".into(), Child { proof: p, verifies: true }));
+    }
+    // invalid proofs
+    v.push(("tampered-nullifier".into(), tamper_proof(&dummy, 4, 0xdead_beef)));
+    v.push(("tampered-output".into(), tamper_proof(&dummy, 1, 7)));
+    if thorough {
+        for i in [0usize, 2, 8, 15, 16, 19] {
+            v.push((format!("tampered@{}", i), tamper_proof(&dummy, i, 1)));
+        }
+    }
+    v
+}
+
+fn write_leaf_artifacts(dir: &std::path::Path, dummy_bytes: &[u8]) {
+    use plonky2::util::serialization::DefaultGateSerializer;
+    let leaf = wormhole_aggregator::common::utils::canonical_leaf_verifier_data();
+    std::fs::create_dir_all(dir).unwrap();
+    std::fs::write(dir.join("common.bin"), leaf.common.to_bytes(&DefaultGateSerializer).unwrap()).unwrap();
+    std::fs::write(dir.join("verifier.bin"), leaf.verifier_only.to_bytes().unwrap()).unwrap();
+    std::fs::write(dir.join("dummy_proof.bin"), dummy_bytes).unwrap();
+}
+fn tmp_dir(tag: &str) -> std::path::PathBuf {
+    let d = std::env::temp_dir().join(format!("verif-provers-{}-{}", std::process::id(), tag));
+    let _ = std::fs::remove_dir_all(&d);
+    std::fs::create_dir_all(&d).unwrap();
+    d
+}
+
+fn c16_canonical(out: &mut Out, thorough: bool, t0: std::time::Instant) {
+    use wormhole_aggregator::private_batch::circuit::build::generate_private_batch_circuit_binaries;
+    let templates = canonical_leaf_templates(thorough);
+    out.note("c16-canonical", &format!("{} real leaf proofs against the canonical leaf circuit; elapsed {:?}", templates.len(), t0.elapsed()));
+    let leaf_vd = wormhole_aggregator::common::utils::canonical_leaf_verifier_data();
+    // the model's `verifies` bit is what the canonical verifier says
+    for (tag, c) in &templates {
+        assert_eq!(leaf_vd.verify(c.proof.clone()).is_ok(), c.verifies, "canonical template {} verifies flag", tag);
+    }
+    // build step: validates BEFORE the expensive circuit build, so rejections are cheap; one accepted run in quick
+    let jobs: Vec<(i128, usize)> = {
+        let mut j: Vec<(i128, usize)> = (0..templates.len()).filter(|&i| thorough || i != 4).map(|i| (E_BUILD, i)).collect();
+        // loaders: the circuit is rebuilt before the template is looked at (~seconds each): a few in quick, all in thorough
+        if thorough {
+            for i in 0..templates.len() {
+                j.push((E_PRIV_BYTES, i));
+            }
+            j.push((E_PRIV_FILES, 0));
+            j.push((E_PRIV_FILES, 1));
+            j.push((E_PRIV_FILES, 3));
+            j.push((E_PRIV_DIR, 0));
+            j.push((E_PRIV_DIR, 1));
+            j.push((E_PRIV_DIR, 5));
+        } else {
+            j.push((E_PRIV_BYTES, 1));
+            j.push((E_PRIV_FILES, 3.min(templates.len() - 1)));
+            j.push((E_PRIV_DIR, 5.min(templates.len() - 1)));
+        }
+        j
+    };
+    let res: Vec<Result<(), String>> = jobs
+        .par_iter()
+        .enumerate()
+        .map(|(q, (entry, i))| {
+            use plonky2::util::serialization::DefaultGateSerializer;
+            let c = &templates[*i].1;
+            let bytes = c.proof.to_bytes();
+            let e = |r: anyhow::Result<()>| r.map_err(|e| format!("{:#}", e));
+            match *entry {
+                E_BUILD => {
+                    let d = tmp_dir(&format!("build-{}", q));
+                    write_leaf_artifacts(&d, &bytes);
+                    let r = e(generate_private_batch_circuit_binaries(&d, 1, true));
+                    // a rejected template must not publish anything
+                    let published = d.join("dummy_private_batch_proof.bin").exists() || d.join("private_batch_common.bin").exists();
+                    let _ = std::fs::remove_dir_all(&d);
+                    match (&r, published) {
+                        (Err(_), true) => Err("PUBLISHED-DESPITE-REJECTION".to_string()),
+                        _ => r,
+                    }
+                }
+                E_PRIV_BYTES => {
+                    let leaf = wormhole_aggregator::common::utils::canonical_leaf_verifier_data();
+                    e(PrivateBatchProver::new_from_bytes(&leaf.common.to_bytes(&DefaultGateSerializer).unwrap(), &leaf.verifier_only.to_bytes().unwrap(), &bytes, 1).map(|_| ()))
+                }
+                E_PRIV_FILES => {
+                    let d = tmp_dir(&format!("files-{}", q));
+                    write_leaf_artifacts(&d, &bytes);
+                    let r = e(PrivateBatchProver::new_from_files(&d.join("common.bin"), &d.join("verifier.bin"), &d.join("dummy_proof.bin"), 1).map(|_| ()));
+                    let _ = std::fs::remove_dir_all(&d);
+                    r
+                }
+                _ => {
+                    let d = tmp_dir(&format!("dir-{}", q));
+                    write_leaf_artifacts(&d, &bytes);
+                    wormhole_aggregator::config::CircuitBinsConfig::new(1, None).unwrap().save(&d).unwrap();
+                    let r = e(PrivateBatchProver::new_from_binaries_dir(&d).map(|_| ()));
+                    let _ = std::fs::remove_dir_all(&d);
+                    r
+                }
+            }
+        })
+        .collect();
+    for ((entry, i), r) in jobs.iter().zip(res) {
+        let (tag, c) = &templates[*i];
+        run_template_entry(out, 1601, *entry, tag, c, r);
+    }
+    out.note("c16-canonical", &format!("{} canonical-pinned entry-point runs (build step, new_from_bytes/files/binaries_dir); elapsed {:?}", jobs.len(), t0.elapsed()));
+
+    if thorough {
+        // the public-batch loaders and aggregator init need the whole canonical artifact set (n = 1, m = 1)
+        let base = tmp_dir("all");
+        circuit_builder::generate_all_circuit_binaries(&base, true, 1, Some(1)).expect("canonical artifact set");
+        let leaf = wormhole_aggregator::common::utils::canonical_leaf_verifier_data();
+        let pb_vd = wormhole_aggregator::common::utils::canonical_private_batch_verifier_data(&leaf, 1).unwrap();
+        let good = Proof::from_bytes(std::fs::read(base.join("dummy_private_batch_proof.bin")).unwrap(), &pb_vd.common).unwrap();
+        // a genuine real private-batch proof through the canonical prover
+        use test_helpers::TestInputs as _;
+        use wormhole_circuit::block_header::header::HeaderInputs;
+        use wormhole_circuit::inputs::CircuitInputs;
+        let mut real = CircuitInputs::test_inputs_0();
+        real.public.block_hash = HeaderInputs::try_from(&real).expect("header").block_hash();
+        let real_leaf = wormhole_prover::build_fresh().commit(&real).unwrap().prove().unwrap();
+        let real_inner = PrivateBatchProver::new_from_binaries_dir(&base).unwrap().commit(vec![real_leaf]).unwrap().prove().unwrap();
+        let mut tpls: Vec<(String, Child)> = vec![("canonical-all-dummy".into(), Child { proof: good.clone(), verifies: true }), ("valid-real-inner".into(), Child { proof: real_inner, verifies: true })];
+        for (at, v) in [(3usize, 1u64), (8, 1), (9, 1), (1, 9), (20, 1), (0, 3)] {
+            tpls.push((format!("tampered@{}", at), tamper_proof(&good, at, v)));
+        }
+        for (tag, c) in &tpls {
+            assert_eq!(pb_vd.verify(c.proof.clone()).is_ok(), c.verifies, "canonical inner template {} verifies flag", tag);
+        }
+        let entries = [E_PUB_BYTES, E_PUB_FILES, E_PUB_DIR, E_AGG];
+        let jobs: Vec<(i128, usize)> = entries.iter().flat_map(|e| (0..tpls.len()).map(move |i| (*e, i))).collect();
+        let res: Vec<Result<(), String>> = jobs
+            .par_iter()
+            .enumerate()
+            .map(|(q, (entry, i))| {
+                let d = tmp_dir(&format!("pub-{}", q));
+                for f in std::fs::read_dir(&base).unwrap() {
+                    let f = f.unwrap();
+                    std::fs::copy(f.path(), d.join(f.file_name())).unwrap();
+                }
+                std::fs::write(d.join("dummy_private_batch_proof.bin"), tpls[*i].1.proof.to_bytes()).unwrap();
+                let e = |r: anyhow::Result<()>| r.map_err(|e| format!("{:#}", e));
+                let r = match *entry {
+                    E_PUB_BYTES => e(PublicBatchProver::new_from_bytes(&std::fs::read(d.join("private_batch_common.bin")).unwrap(), &std::fs::read(d.join("private_batch_verifier.bin")).unwrap(), &std::fs::read(d.join("dummy_private_batch_proof.bin")).unwrap(), (1, 1)).map(|_| ())),
+                    E_PUB_FILES => e(PublicBatchProver::new_from_files(&d.join("private_batch_common.bin"), &d.join("private_batch_verifier.bin"), &d.join("dummy_private_batch_proof.bin"), (1, 1)).map(|_| ())),
+                    E_PUB_DIR => e(PublicBatchProver::new_from_binaries_dir(&d).map(|_| ())),
+                    _ => e(wormhole_aggregator::aggregator::PublicBatchAggregator::new(&d, BytesDigest::default()).map(|_| ())),
+                };
+                let _ = std::fs::remove_dir_all(&d);
+                r
+            })
+            .collect();
+        for ((entry, i), r) in jobs.iter().zip(res) {
+            let (tag, c) = &tpls[*i];
+            run_template_entry(out, 1602, *entry, tag, c, r);
+        }
+        let _ = std::fs::remove_dir_all(&base);
+        out.note("c16-canonical", &format!("{} canonical public-batch loader / aggregator-init runs; elapsed {:?}", jobs.len(), t0.elapsed()));
+    }
+}
+
+fn c16_private_batch_templates(out: &mut Out, rng: &mut Rng, thorough: bool, t0: std::time::Instant) {
+    let mut n_direct = 0;
+    let mut n_ctor = 0;
+    for n_leaf in if thorough { vec![1usize, 2, 3] } else { vec![1usize, 2] } {
+        let inner = InnerStack::new(n_leaf);
+        let vd = inner.vd();
+        let len = inner.pi_len();
+        let good = inner.all_dummy_inner([0; 21], rng);
+        let mut dl = [0u64; 21];
+        dl[0] = 5;
+        dl[3] = 99;
+        dl[8] = 4; // a dummy leaf with an exit account: masked by the circuit, so the inner proof is still a clean template
+        let odd = inner.all_dummy_inner(dl, rng);
+        let mut rl = vec![leaf(0, 100, 3, 10, [1, 0, 0, 0], [5, 6, 7, 8], [1, 1, 1, 1], [9, 0, 0, 0], 3)];
+        for q in 1..n_leaf {
+            rl.push(leaf(0, 1, 0, 10, [1 + q as u64, 0, 0, 0], [5, 6, 7, 8], [0; 4], [9, 0, 0, 0], 3));
+        }
+        let real = inner.real_inner(&rl);
+        let mut v: Vec<(String, Child)> = vec![
+            ("all-dummy".into(), Child { proof: good.clone(), verifies: true }),
+            ("all-dummy-other-asset".into(), Child { proof: odd, verifies: true }),
+            ("valid-real-batch".into(), Child { proof: real.clone(), verifies: true }),
+            ("short".into(), relen_proof(&good, false)),
+            ("long".into(), relen_proof(&good, true)),
+            ("leaf-proof-as-template".into(), Child { proof: inner.fl.prove([0; 21]), verifies: false }),
+        ];
+        // every single position deviating (the proof then no longer verifies; the sentinel is checked first, so the class
+        // still tells which condition fired)
+        for i in 0..len {
+            v.push((format!("tampered@{}{}", if i < 8 { "header" } else if i < 8 + 10 * n_leaf { "slots" } else if i < 8 + 14 * n_leaf { "nullifiers" } else { "padding" }, ""), tamper_proof(&good, i, 1)));
+            if thorough || rng.chance(1, 4) {
+                v.push(("tampered-not-u32".into(), tamper_proof(&good, i, 1 << 32)));
+            }
+        }
+        let pairs = if thorough { 80 } else { 12 };
+        for _ in 0..pairs {
+            let i = rng.below(len as u64) as usize;
+            let j = rng.below(len as u64) as usize;
+            let mut c = tamper_proof(&good, i, 1);
+            c.proof.public_inputs[j] = F::from_canonical_u64(2);
+            c.verifies = false;
+            v.push(("tampered-pair".into(), c));
+        }
+        // a real batch proof with its block hash zeroed afterwards: sentinel-clean header, live exit slots
+        let mut z = real.clone();
+        for i in 3..7 {
+            z.public_inputs[i] = F::ZERO;
+        }
+        v.push(("real-batch-with-zeroed-block-hash".into(), Child { proof: z, verifies: false }));
+        for (tag, c) in &v {
+            let r = verif_verify_dummy_private_batch_template(&c.proof, &vd).map_err(|e| format!("{:#}", e));
+            run_template_entry(out, 1602, E_DIRECT, &format!("n={}:{}", n_leaf, tag), c, r);
+            n_direct += 1;
+        }
+        // the direct constructor
+        let picked: Vec<&(String, Child)> = v.iter().enumerate().filter(|(i, (tag, _))| !tag.starts_with("tampered") || (thorough && i % 3 == 0) || (!thorough && n_leaf == 1 && i % 7 == 0)).map(|(_, x)| x).collect();
+        let res: Vec<Result<(), String>> = picked
+            .par_iter()
+            .map(|(_, c)| PublicBatchProver::new(wormhole_public_batch_circuit_config(), vd.common.clone(), &vd.verifier_only, 1, n_leaf, c.proof.clone()).map(|_| ()).map_err(|e| format!("{:#}", e)))
+            .collect();
+        for ((tag, c), r) in picked.iter().zip(res) {
+            run_template_entry(out, 1602, E_PUB_NEW, &format!("n={}:{}", n_leaf, tag), c, r);
+            n_ctor += 1;
+        }
+    }
+    out.note("c16-private-batch", &format!("{} templates at the validator, {} at PublicBatchProver::new (private-batch proofs over the fake leaf); elapsed {:?}", n_direct, n_ctor, t0.elapsed()));
+}
+
 fn main() {
     quiet_panics();
     let seed = seed_from_env();
@@ -433,183 +1231,20 @@ fn main() {
     let which: Vec<String> = std::env::args().skip(1).collect();
     let want = |s: &str| which.is_empty() || which.iter().any(|w| w == s);
     let t0 = std::time::Instant::now();
-
-    let fl = FakeLeaf::new();
-    let u = universe(&mut rng);
-    let zero_template = fl.prove([0; 21]);
-    // a template that is a valid dummy in every inspected position but carries garbage elsewhere (fee, nullifier, block number)
-    let mut tpl = [0u64; 21];
-    tpl[3] = 10;
-    tpl[4] = 77;
-    tpl[20] = 5;
-    let busy_template = fl.prove(tpl);
-
-    if want("c14priv") {
-        let sizes: Vec<usize> = if thorough { vec![1, 2, 3, 4] } else { vec![1, 2, 3] };
-        let mut ctx = PrivCtx { fl, cfg: no_zk(wormhole_private_batch_circuit_config()), template: busy_template.clone(), full: HashMap::new(), targets: HashMap::new() };
-        for &n in &sizes {
-            let c = PrivateBatchCircuit::new(ctx.cfg.clone(), &ctx.fl.data.common, &ctx.fl.data.verifier_only, n).unwrap();
-            ctx.targets.insert(n, c.targets());
-            ctx.full.insert(n, c.build_circuit());
-        }
-        out.note("c14-private", &format!("fake-leaf stack ready after {:?}; sizes {:?}", t0.elapsed(), sizes));
-
-        if std::env::var("VERIF_PROBE").is_ok() {
-            for &n in &sizes {
-                let t = std::time::Instant::now();
-                let pr = ctx.new_prover(n);
-                let tb = t.elapsed();
-                let l = valid(&ctx.fl, leaf(0, 5, 0, 10, [1, 0, 0, 0], [3; 4], [0; 4], [9, 0, 0, 0], 3));
-                let t = std::time::Instant::now();
-                let c = pr.commit(vec![l.proof.clone()]).unwrap();
-                let tc = t.elapsed();
-                let pw = c.verif_partial_witness().clone();
-                let t = std::time::Instant::now();
-                let ev = CircuitEval::new(&ctx.full[&n]);
-                let te = t.elapsed();
-                let t = std::time::Instant::now();
-                let w = ev.generate_with_overrides(pw, &mut no_tweak()).unwrap();
-                let tg = t.elapsed();
-                let t = std::time::Instant::now();
-                let bad = ev.gate_violations(&w);
-                let tv = t.elapsed();
-                eprintln!("n={} degree={} build {:?} commit {:?} evalnew {:?} gen {:?} gates {:?} bad {}", n, ctx.full[&n].common.degree(), tb, tc, te, tg, tv, bad);
-            }
-            let t = std::time::Instant::now();
-            for i in 0..20u64 { let _ = ctx.fl.prove(leaf(0, i, 0, 10, [1, 0, 0, 0], [3; 4], [0; 4], [9, 0, 0, 0], 3)); }
-            eprintln!("20 leaf proofs {:?}", t.elapsed());
-            return;
-        }
-        // ---- the F1 regression pair: two valid real leaves paying the same account 2^31 (resp. 2^30) each
-        let acc = u.accounts[1];
-        for (amt, tag) in [(1u64 << 31, "F1-two-leaves-2^31-same-account"), (1u64 << 30, "F1-control-two-leaves-2^30-same-account")] {
-            let a = valid(&ctx.fl, leaf(0, amt, 0, 10, [1, 0, 0, 0], acc, [0; 4], [9, 0, 0, 0], 3));
-            let b = valid(&ctx.fl, leaf(0, amt, 0, 10, [2, 0, 0, 0], acc, [0; 4], [9, 0, 0, 0], 3));
-            let ch = vec![a, b];
-            let segs = commit_segs(2, &[], &ctx.template, &ch);
-            // (i) the plain client path: commit, then the REAL prove()
-            let real = ctx.new_prover(2).commit(ch.iter().map(|c| c.proof.clone()).collect());
-            // (ii) a second commit of the same vector, whose committed witness is evaluated gate by gate
-            let o = private_commit(&ctx, 2, &ch, false);
-            match real {
-                Err(e) => {
-                    let m = format!("{:#}", e);
-                    out.note("F1", &format!("{}: commit Err class {}", tag, commit_kind(&m)));
-                    out.case(1401, tag, &segs, &enc_commit(&Err(m)));
-                }
-                Ok(committed) => {
-                    let pr = committed.prove();
-                    let sat = o.sat.unwrap_or(false);
-                    out.note("F1", &format!("{}: commit Ok; committed witness satisfies the circuit = {}; prove() = {}", tag, sat, match &pr { Ok(_) => "Ok".to_string(), Err(e) => format!("Err({})", format!("{:#}", e).chars().take(150).collect::<String>()) }));
-                    out.case(1401, tag, &segs, &[1]);
-                    out.case(1402, tag, &segs, &[(sat && pr.is_ok()) as i128]);
-                }
-            }
-        }
-
-        // ---- generated commit cases
-        struct Job {
-            n: usize,
-            ch: Vec<Child>,
-            tag: String,
-            prove: bool,
-        }
-        let mut jobs: Vec<Job> = vec![];
-        let reps = if thorough { 260 } else { 36 };
-        for &n in &sizes {
-            for rep in 0..reps {
-                let k = match rng.below(10) {
-                    0 => 0,
-                    1 => n + 1,
-                    _ => 1 + rng.below(n as u64) as usize,
-                };
-                let (ls, tag) = gen_leaf_batch(&mut rng, k, n, &u);
-                let mut ch: Vec<Child> = ls.iter().map(|l| valid(&ctx.fl, *l)).collect();
-                let mut tag = tag.to_string();
-                if k > 0 {
-                    let i = rng.below(k as u64) as usize;
-                    match rng.below(14) {
-                        0 => {
-                            // flip a public input after proving
-                            let at = rng.below(21) as usize;
-                            ch[i] = tampered(&ctx.fl, ls[i], at, ls[i][at] ^ 1);
-                            tag += "+tampered";
-                        }
-                        1 => {
-                            ch[i] = wrong_len(&ctx.fl, ls[i], rng.chance(1, 2));
-                            tag += "+pi-len";
-                        }
-                        2 => {
-                            // the padding template itself supplied as a "real" proof
-                            ch[i] = Child { proof: ctx.template.clone(), verifies: true };
-                            tag += "+template-supplied";
-                        }
-                        3 if k < n => {
-                            // padding needed and a non-native asset
-                            let mut l = ls[i];
-                            l[0] = *rng.pick(&[1u64, (1 << 32) - 1, 1 << 32, P - 1]);
-                            ch[i] = valid(&ctx.fl, l);
-                            tag += "+nonzero-asset-with-padding";
-                        }
-                        _ => {}
-                    }
-                }
-                jobs.push(Job { n, ch, tag, prove: rep % 12 == 0 });
-            }
-        }
-        let obs: Vec<CommitObs> = jobs.par_iter().map(|j| private_commit(&ctx, j.n, &j.ch, j.prove)).collect();
-        let mut n_ok = 0;
-        let mut n_proved = 0;
-        for (j, o) in jobs.iter().zip(&obs) {
-            let segs = commit_segs(j.n, &[], &ctx.template, &j.ch);
-            out.case(1401, &j.tag, &segs, &enc_commit(&o.result));
-            if let Some(sat) = o.sat {
-                n_ok += 1;
-                let proved_ok = o.proved.unwrap_or(true);
-                if o.proved.is_some() {
-                    n_proved += 1;
-                }
-                out.case(1402, &j.tag, &segs, &[(sat && proved_ok) as i128]);
-            }
-            // explicit evaluation of the padded batch in the supplied order and in one random order, whenever it is a
-            // vector of valid child proofs that fits
-            let k = j.ch.len();
-            if k >= 1 && k <= j.n && j.ch.iter().all(|c| c.verifies && c.proof.public_inputs.len() == 21) {
-                let mut padded: Vec<Child> = j.ch.clone();
-                while padded.len() < j.n {
-                    padded.push(Child { proof: ctx.template.clone(), verifies: true });
-                }
-                for round in 0..2 {
-                    if round == 1 {
-                        for i in (1..padded.len()).rev() {
-                            let q = rng.below(i as u64 + 1) as usize;
-                            padded.swap(i, q);
-                        }
-                    }
-                    let proofs: Vec<Proof> = padded.iter().map(|c| c.proof.clone()).collect();
-                    let sat = explicit_sat(&ctx, j.n, &proofs, &mut rng);
-                    let segs: Vec<Seg> = padded.iter().map(|c| c.seg()[1..].to_vec()).collect();
-                    out.case(1403, &format!("{}{}", j.tag, if round == 1 { "+shuffled" } else { "" }), &segs, &[sat as i128]);
-                }
-            }
-        }
-        out.note("c14-private", &format!("{} commits, {} accepted (witness evaluated), {} really proved+verified; elapsed {:?}", jobs.len(), n_ok, n_proved, t0.elapsed()));
-
-        // ---- bulk: the compatibility function alone
-        let bulk = if thorough { 6000 } else { 700 };
-        for _ in 0..bulk {
-            let k = 1 + rng.below(5) as usize;
-            let n = if rng.chance(1, 2) { k } else { k + 1 };
-            let (ls, tag) = gen_leaf_batch(&mut rng, k, n, &u);
-            let proofs: Vec<Proof> = ls.iter().map(|l| ctx.fl.prove(*l)).collect();
-            let r = verif_ensure_leaf_batch_compatible(&proofs).map_err(|e| format!("{:#}", e));
-            let segs: Vec<Seg> = ls.iter().map(|l| seg_u64(l)).collect();
-            out.case(1404, tag, &segs, &enc_commit(&r));
-        }
-        out.note("c14-private", &format!("bulk done; elapsed {:?}", t0.elapsed()));
+    if want("c14") || want("c14priv") {
+        c14_private(&mut out, &mut rng.fork(), thorough, t0);
     }
-    let _ = (zero_template, verif_verify_dummy_leaf_template, verif_verify_dummy_private_batch_template, verif_c21_preflight_private_batch_proofs);
-    let _ = (PublicBatchCircuit::new, wormhole_public_batch_circuit_config, BytesDigest::default());
-    let _: Option<(PublicBatchInputs, PublicBatchProver)> = None;
+    if want("c14") || want("c14pub") {
+        c14_public(&mut out, &mut rng.fork(), thorough, t0);
+    }
+    if want("c16") || want("c16leaf") {
+        c16_leaf(&mut out, &mut rng.fork(), thorough, t0);
+    }
+    if want("c16") || want("c16pb") {
+        c16_private_batch_templates(&mut out, &mut rng.fork(), thorough, t0);
+    }
+    if want("c16") || want("c16canon") {
+        c16_canonical(&mut out, thorough, t0);
+    }
     out.flush();
 }
